@@ -76,6 +76,18 @@ class GenericResolver(Generic[K, M]):
             return tp
         return tp[tuple(chain.from_iterable(type_var_to_actual[type_var] for type_var in params))]
 
+    def _get_orig_bases(self, tp) -> tuple:
+        # ``__orig_bases__`` is found by ordinary attribute lookup,
+        # so a class whose bases are all plain classes (``class Child(Parent)``)
+        # would expose ``__orig_bases__`` of one of its parents instead of its own bases.
+        # Only the attribute defined by the class itself describes its bases,
+        # otherwise bases were not subscribed and ``__bases__`` is the answer
+        # (a generic parent left bare gets implicit parameters).
+        try:
+            return vars(tp)["__orig_bases__"]
+        except (KeyError, TypeError):
+            return getattr(tp, "__bases__", ())
+
     def _get_members_by_parents(self, tp) -> MembersStorage[K, M]:
         members_storage = self._raw_members_getter(tp)
         if not any(
@@ -83,11 +95,8 @@ class GenericResolver(Generic[K, M]):
             for tp in members_storage.members.values()
         ):
             return members_storage
-        if not hasattr(tp, "__orig_bases__"):
-            return members_storage
-
         bases_members: dict[K, TypeHint] = {}
-        for base in reversed(tp.__orig_bases__):
+        for base in reversed(self._get_orig_bases(tp)):
             bases_members.update(self.get_resolved_members(base).members)
 
         return replace(
